@@ -27,6 +27,8 @@
 (*                      for ever and spawn never returns                                    *)
 (*   "ChildClosesDupSource" the child closes the source after each dup2 (a blind mutant):   *)
 (*                      with RawFd(1) for stderr ("2>&1") the program loses its stdout      *)
+(*   "PreExecLastWins"  every pre-exec closure runs and only the LAST result counts (a blind *)
+(*                      mutant): an earlier failure is lost (Ok) or the wrong errno reported *)
 (* Dev = {} is the code as it stands after the `fix:` commits (see notes/C13.md).           *)
 EXTENDS SpawnAbs, TLC
 
@@ -462,15 +464,22 @@ Setpgid == OptStep("c_setpgid", "c_pre", cfg.pg # "unset", "setpgid", 0, [im EXC
 PreExec ==
     /\ pc.C = "c_pre"
     /\ LET done == Cardinality({i \in DOMAIN hist.C : hist.C[i][1] = "pre_exec"})
+           lastWins == "PreExecLastWins" \in Dev
        IN  IF done >= Len(cfg.pre)
-           THEN /\ Goto("C", "c_exec")
-                /\ UNCHANGED <<hist, F, cerr, returns, child>>
+           THEN \* all closures are through (as coded this point is only reached when none failed)
+                IF lastWins /\ Len(cfg.pre) > 0 /\ cfg.pre[Len(cfg.pre)] # 0
+                THEN /\ ChildFail(cfg.pre[Len(cfg.pre)])
+                     /\ UNCHANGED <<hist, F>>
+                ELSE /\ Goto("C", "c_exec")
+                     /\ UNCHANGED <<hist, F, cerr, returns, child>>
            ELSE LET code == cfg.pre[done + 1]
                 IN  /\ hist' = [hist EXCEPT !.C = Append(@, <<"pre_exec", code>>)]
                     /\ IF code = 0
                        THEN UNCHANGED <<pc, F, cerr, returns, child>>
                        ELSE /\ F' = F \cup {[proc |-> "C", step |-> "pre_exec", errno |-> IF code > 0 THEN code ELSE 0]}
-                            /\ ChildFail(code)
+                            /\ IF lastWins
+                               THEN UNCHANGED <<pc, cerr, returns, child>>     \* deviation: goes on to the next closure
+                               ELSE ChildFail(code)                           \* closure.run()?  - the first failure ends it
     /\ UNCHANGED <<pin, cfgv, buildv, theirs, pipe, cnt, fired, im, ci, perr, pres, execd, image, reaped, cstatus, waits>>
 
 EnvUsed == CASE envmode = "inherit" -> PEnv          \* crate::env::ENV.env_p
